@@ -249,7 +249,8 @@ int main(int argc, char **argv) {
                 len = (lc >= 1 && lc <= 3) ? lenmap[lp][lc] : lc;       /* length class (tours) or literal length (random) */
                 v = vh_malloc((size_t) len + 1); mkval(v, vid, len);
             }
-            if (a >= 1 && a <= NK && strcmp(op, "rmidx")) { kb = vh_malloc((size_t) keylen[a]); memcpy(kb, keyname[a], (size_t) keylen[a]); }
+            char *kb0 = NULL; size_t koff = ((size_t) (((uint32_t) vh_step * 2654435761u) >> 30));          /* keys at every alignment modulo 4 */
+            if (a >= 1 && a <= NK && strcmp(op, "rmidx")) { kb0 = vh_malloc((size_t) keylen[a] + koff); kb = kb0 + koff; memcpy(kb, keyname[a], (size_t) keylen[a]); }
             vh_watchdog(6);
             /* the string flavours of the API: usable with NUL-terminated keys when the value is a C string (value 5) */
             int strget = 0;
@@ -281,7 +282,7 @@ int main(int argc, char **argv) {
             vh_call_end();
             alarm(0);
             if (v) { memset(v, 0xA5, (size_t) len); vh_free(v); }
-            if (kb) { memset(kb, 0xA5, (size_t) keylen[a]); vh_free(kb); }
+            if (kb) { memset(kb, 0xA5, (size_t) keylen[a]); vh_free(kb0); }
             int gok = canary_ok(mem, curvariant);
             vh_bprintf(&b, "{\"op\":\"%s\",\"a\":%d,\"vid\":%d,\"len\":%d,\"inj\":%ld,\"nfail\":%ld,\"ok\":%s,\"err\":%d,\"rv\":%d,\"rsz\":%zu,\"guard_ok\":%s,",
                        op, a, vid, len, inject ? kk : 0L, nfail, vh_bool(ok), e, rv, rsz, vh_bool(gok));
